@@ -238,3 +238,66 @@ func Outer(f *ssa.Function) *ssa.Function {
 	}
 	return f
 }
+
+// OnlyStaticallyCalled reports whether f is an unexported package-level
+// function (no receiver, not a literal) of the target packages that is never
+// used as a value: every invocation is one of Callers(f).
+func (p *Prog) OnlyStaticallyCalled(f *ssa.Function) bool {
+	if f == nil || f.Parent() != nil || f.Signature.Recv() != nil || !p.InTarget(f) {
+		return false
+	}
+	if o := f.Object(); o == nil || o.Exported() {
+		return false
+	}
+	for _, g := range p.Funcs {
+		for _, b := range g.Blocks {
+			for _, in := range b.Instrs {
+				for _, op := range in.Operands(nil) {
+					if op == nil || *op != ssa.Value(f) {
+						continue
+					}
+					if ci, ok := in.(ssa.CallInstruction); ok && ci.Common().Value == ssa.Value(f) {
+						// the callee position; make sure it is not also an argument
+						isArg := false
+						for _, a := range ci.Common().Args {
+							if a == ssa.Value(f) {
+								isArg = true
+							}
+						}
+						if !isArg {
+							continue
+						}
+					}
+					return false
+				}
+			}
+		}
+	}
+	return true
+}
+
+// StaticHelpers returns the unexported in-target functions that f (or one of
+// its nested literals) calls statically — the "one level of helper" that
+// recognisers tolerate. f itself is not included.
+func (p *Prog) StaticHelpers(f *ssa.Function) []*ssa.Function {
+	var out []*ssa.Function
+	seen := map[*ssa.Function]bool{f: true}
+	for _, fn := range WithNested(f) {
+		Instrs(fn, func(in ssa.Instruction) {
+			ci, ok := in.(ssa.CallInstruction)
+			if !ok {
+				return
+			}
+			cal := ci.Common().StaticCallee()
+			if cal == nil || seen[cal] || !p.InTarget(cal) || len(cal.Blocks) == 0 {
+				return
+			}
+			if o := cal.Object(); o != nil && o.Exported() {
+				return
+			}
+			seen[cal] = true
+			out = append(out, cal)
+		})
+	}
+	return out
+}
